@@ -14,22 +14,30 @@ from . import common as C
 from .flow import DENSITY_CALL, IntegrateFacts
 
 ID = 'C12'
-TECHNIQUE = ('who-may-read inventory of the stored wind list, shape + effect check of the sorted view, reaching '
-             'definitions of the wind used by the step, abstract evaluation of the wind sock transitions and of the '
-             'wind vector to normal forms (parity of sin/cos declared in the algebra)')
+TECHNIQUE = ('who-may-read inventory of the stored wind list, the sorted view evaluated on three segments in '
+             'all six orders (display units chosen so that the displayed numbers order differently from the '
+             'magnitudes) + effect check, the velocity update of one symbolic loop iteration read for which '
+             'wind it depends on under which guard, abstract evaluation of the wind sock transitions and of '
+             'the wind vector to normal forms (parity of sin/cos declared in the algebra)')
 DECIDED = [
-    'R1 the solver consumes Shot.winds (never the stored list), which is a new tuple sorted ascending by a display-'
-    'independent magnitude of until_distance; the stored list is read only inside Shot and never reordered',
-    'R2 the wind entering the drag term has exactly two reaching definitions: the first segment before the loop and '
-    'the in-loop refresh guarded only by position x >= end of the current segment; the wind sock index only '
-    'advances by one, takes vector and end distance from the segment it points at, and yields the literal zero '
-    'vector beyond the last segment (and for an empty list)',
-    'R3 Wind.vector = k v (cos d, 0, sin d) with one positive k: cross-range component odd and down-range component '
-    'even in the direction, no vertical component, zero speed gives the zero vector',
-    'R3b Wind.vector is computed from the current velocity and direction on every path: a vector kept on the (mutable, publicly assignable) object is refuted',
+    'R1 the solver consumes Shot.winds (never the stored list), which - by evaluation on three segments in '
+    'all six orders - is a new sequence ordered by the raw magnitude of until_distance whatever display units'
+    ' the segments were given in, the stored list left as it was; the stored list is read only inside Shot '
+    'and never reordered',
+    'R2 the velocity update of one symbolic iteration depends on the wind of the previous iteration only on '
+    'paths guarded by x < end of the current segment and otherwise on wind_sock.vector_for_range(x) (a step '
+    'that depends on no wind, a refresh at another position or under another guard are refuted); the wind '
+    'sock index only advances by one, takes vector and end distance from the segment it points at, and yields'
+    ' the literal zero vector beyond the last segment (and for an empty list)',
+    'R3 Wind.vector = k v (cos d, 0, sin d) with one positive k: cross-range component odd and down-range '
+    'component even in the direction, no vertical component, zero speed gives the zero vector',
+    'R3b Wind.vector is computed from the current velocity and direction on every path: a vector kept on the '
+    '(mutable, publicly assignable) object is refuted',
 ]
-NOT_DECIDED = ['causality and mirror symmetry of the computed rows as numbers; opposite senses of head and tail wind in '
-               'drop and time of flight (runtime values)']
+NOT_DECIDED = [
+    'causality and mirror symmetry of the computed rows as numbers; opposite senses of head and tail wind in '
+    'drop and time of flight (runtime values)',
+]
 
 
 def run(prog: Program, rep, thorough: bool) -> None:
